@@ -1051,6 +1051,21 @@ package gohlslib
 //@   ensures calls("dyncall") == 1 && callarg("dyncall", 0, 0) == pts && callarg("dyncall", 0, 1) == ref(data[0])
 //@ end
 
+// C09 / C10 / C11: the stream downloader hands its stream processor its own leading flag, rendition, queue and client;
+// the init segment is fetched with the EXT-X-MAP URI and byte range of the first playlist
+//@ func clientStreamDownloader.run
+//@   props C09 C10 C11
+//@   nosafety
+//@   noframe
+//@   nocallpre
+//@   modifies *
+//@   atcall clientStreamProcessorFMP4.initialize arg0.isLeading == d.isLeading && arg0.rendition == d.rendition && arg0.segmentQueue == d.segmentQueue && arg0.segmentQueue != nil
+//@        && arg0.client == d.client && arg0.rp == d.rp && arg0.initFile == initFile
+//@   atcall clientStreamProcessorMPEGTS.initialize arg0.isLeading == d.isLeading && arg0.segmentQueue == d.segmentQueue && arg0.segmentQueue != nil
+//@        && arg0.client == d.client && arg0.rp == d.rp
+//@   atcall clientStreamDownloader.downloadSegment arg2 == d.firstPlaylist.Map.URI && arg3 == d.firstPlaylist.Map.ByteRangeStart && arg4 == d.firstPlaylist.Map.ByteRangeLength
+//@ end
+
 // ---------------------------------------------------------------------------------------
 // C10 / C11 / C13: client (sequential logic; goroutines, channels and HTTP are outside the VCs)
 
